@@ -6,6 +6,7 @@ from ..summary import Analyzer, akey, term_str
 from ..initflow import InitFlow, lf_add, lf_const, lf_scale, lf_is_const, lf_str
 from .common import construct, fsite, csite, direct_calls, public_functions
 from .ctr import ctr_backends
+from ..contract import family
 
 TITLE = ("Decides the buffering protocol that makes CTR output independent of how the data is cut into calls (that the "
          "keystream IS E(c+i) is a value fact and is not decided): for each of the 7 back ends, BATCH = sizeof(ecounter) "
@@ -449,6 +450,66 @@ def run_config(ctx, rep, cfg):
                         hf = prog.resolve(g.unit, i["callee"][1])
                         if hf:
                             helpers[hf.key] = b.block
+    # ---- R1 for setters implemented once in the front end (no dispatch through the back-end table): the value they
+    # reset the position to must be BATCH for EVERY back end that can serve the object - a constant, or a context
+    # field that this back end sets once to a constant (const_fields)
+    pubs_all = public_functions(ctx, prog)
+    for name, f, c, decl in pubs_all:
+        if c["kind"] not in ("key", "tweak") or "_ctr_" not in name:
+            continue
+        s = an.summaries[f.key]
+        if s.indirect:
+            continue        # dispatches: its slot targets were checked above
+        objp = [pn for pn, sp in c["params"].items() if sp[0] == "OBJ"]
+        if not objp:
+            continue
+        h = [k for k, p in enumerate(decl["params"]) if p["name"] == objp[0]][0]
+        fam = family(name)
+        nz = s.c("nz")
+        for b in backends:
+            if b.family != fam:
+                continue
+            off_off, off_sz = b.fields["offset"]
+            val = None
+            for k, (loc, t) in ((nz.must or {}).items() if nz else []):
+                a = loc.addr
+                if a.root == ("arg", h) and len(a.segs) == 2 and a.segs[0].off == b.ctx_off and a.segs[1].off == off_off:
+                    val = t
+            got = None
+            if val is not None and val[0] == "c":
+                got = val[1]
+            elif val is not None:
+                # the stored value as written: a load of another context field that this back end keeps constant
+                am_ = s.fa.am
+                gots = set()
+                for i in f.all_insts():
+                    if i["op"] != "store":
+                        continue
+                    a = am_.of(i["ops"][1])
+                    if a is None or not (a.root == ("arg", h) and len(a.segs) == 2 and a.segs[0].off == b.ctx_off and a.segs[1].off == off_off):
+                        continue
+                    v = i["ops"][0]
+                    while v[0] == "i" and f.insts[v[1]]["op"] in CASTS | {"zext", "sext", "trunc"}:
+                        v = f.insts[v[1]]["ops"][0]
+                    if v[0] == "c":
+                        gots.add(int(v[1]))
+                    elif v[0] == "i" and f.insts[v[1]]["op"] == "load":
+                        a2 = am_.of(f.insts[v[1]]["ops"][0])
+                        if a2 is not None and a2.root == ("arg", h) and len(a2.segs) == 2 and a2.segs[0].off == b.ctx_off and a2.segs[1].off is not None:
+                            gots.add(b.const_fields.get((a2.segs[1].off, f.insts[v[1]].get("size"))))
+                        else:
+                            gots.add(None)
+                    else:
+                        gots.add(None)
+                if len(gots) == 1:
+                    got = next(iter(gots))
+            nset += 1
+            cons = "%s:for %s" % (construct(f), b.table)
+            if got == b.batch:
+                rep.ok("C05.R1", cons, fsite(f), "front-end setter resets the position to %d = sizeof(%s.ecounter) when %s serves the object" % (b.batch, b.ctxty, b.table), cfg=cn)
+            else:
+                rep.violation("C05.R1", cons, fsite(f), "%s resets the keystream position to %s, which is not the batch size %d of the back end %s (a field that back end never sets is 0 from calloc): after a key / tweak change the next output bytes come from the stale buffer" %
+                              (name, ("%d" % got) if got is not None else (term_str(val, s.addr_reg, prog) if val else "nothing"), b.batch, b.table), cfg=cn)
     # ---- R2 (lanes): the documented default counter is all-zero, so a fresh vector context must hold the
     # staggered lanes 0,1,..,L-1 - either its init staggers them or the public init loads the zero counter
     pubs = {n: (f, c, d) for (n, f, c, d) in public_functions(ctx, prog)}
